@@ -946,12 +946,28 @@ def delete_unused_functions_and_classes(
         or (node.name in preserve and parsing.is_magic_method(funcdef))
     }
 
+    # A decorator may be what uses the definition: it registers a handler, a route, a plugin.
+    # Those of the standard library that just wrap what they decorate are known not to.
+    plain_decorators = ast.Name(
+        id=("staticmethod", "classmethod", "property", "abstractmethod", "cache", "lru_cache")
+    )
+
+    def is_used_by_decorator(node: ast.AST) -> bool:
+        return any(
+            not core.match_template(decorator, plain_decorators)
+            for decorator in node.decorator_list
+        )
+
     for node in core.walk(root, (ast.FunctionDef, ast.AsyncFunctionDef)):
-        if node.name not in preserve and node not in preserved_class_funcdefs:
+        if (
+            node.name not in preserve
+            and node not in preserved_class_funcdefs
+            and not is_used_by_decorator(node)
+        ):
             funcdefs.append(node)
 
     for node in core.walk(root, ast.ClassDef):
-        if node.name not in preserve:
+        if node.name not in preserve and not is_used_by_decorator(node):
             classdefs.append(node)
 
     for node in core.walk(root, ast.Name(ctx=ast.Load)):
